@@ -351,3 +351,45 @@ pub proof fn lemma_unique_row(ps: Seq<&Policy>, ev: &Evaluator<'_>, id: PolicyID
         if i < j { assert(ps[i].spec_id() != ps[j].spec_id()); } else if j < i { assert(ps[j].spec_id() != ps[i].spec_id()); }
     }
 }
+
+// ---- re-authorization (C13) ----
+/// the policy `p` was built from the component tuple `c` (postcondition of the closure of `all_residual_policies`)
+pub open spec fn pol_of(p: Policy, c: PolicyComponents<'_>) -> bool {
+    p.spec_effect() == c.0 && p.spec_id() == *c.1 && p.spec_condition() == when_cond(**c.2) && p.spec_env() == empty_env()
+}
+pub open spec fn built_from(items: Seq<Policy>, cs: Seq<PolicyComponents<'_>>) -> bool {
+    items.len() == cs.len() && forall|i: int| 0 <= i < items.len() ==> pol_of(#[trigger] items[i], cs[i])
+}
+pub proof fn lemma_resid_set(pr: PartialResponse, cp: Seq<PolicyComponents<'_>>, cf: Seq<PolicyComponents<'_>>, items: Seq<Policy>, ps: PolicySet)
+    requires comps_ok(pr, cp, Effect::Permit), comps_ok(pr, cf, Effect::Forbid), built_from(items, cp + cf),
+        ps.distinct_ids(), same_policies(ps.policy_seq(), items),
+    ensures resid_set(pr, ps)
+{
+    let cs = cp + cf;
+    let s = ps.policy_seq();
+    assert forall|i: int| 0 <= i < s.len() implies resid_pol(pr, *(#[trigger] s[i])) by {
+        let j = choose|j: int| 0 <= j < items.len() && *s[i] == #[trigger] items[j];
+        assert(pol_of(items[j], cs[j]));
+        let c = cs[j];
+        if j < cp.len() { assert(c == cp[j]); assert(comp_ok(pr, cp[j], Effect::Permit)); }
+        else { assert(c == cf[j - cp.len()]); assert(comp_ok(pr, cf[j - cp.len()], Effect::Forbid)); }
+        let e: Arc<Expr> = *c.2;
+        assert(s[i].spec_condition() == when_cond(*e));
+    }
+    assert forall|id: PolicyID, eff: Effect| in_buckets(pr, id, eff) implies #[trigger] pol_has(s, id, eff) by {
+        let j: int = if eff == Effect::Permit {
+            assert(comp_has(cp, id));
+            let k = choose|k: int| 0 <= k < cp.len() && *(#[trigger] cp[k]).1 == id;
+            assert(comp_ok(pr, cp[k], Effect::Permit)); assert(cs[k] == cp[k]);
+            k
+        } else {
+            assert(comp_has(cf, id));
+            let k = choose|k: int| 0 <= k < cf.len() && *(#[trigger] cf[k]).1 == id;
+            assert(comp_ok(pr, cf[k], Effect::Forbid)); assert(cs[cp.len() + k] == cf[k]);
+            cp.len() + k
+        };
+        assert(pol_of(items[j], cs[j]));
+        let i = choose|i: int| 0 <= i < s.len() && *(#[trigger] s[i]) == #[trigger] items[j];
+        assert(s[i].spec_id() == id && s[i].spec_effect() == eff);
+    }
+}
